@@ -27,6 +27,10 @@ from aioslsk.transfer.state import TransferState
 from aioslsk.user.manager import UserManager
 from aioslsk.user.model import User, UserStatus
 
+# a path cut by the engine (PathAbort / BoundHit) leaves never-started coroutines behind
+import warnings  # noqa: E402
+warnings.filterwarnings('ignore', category=RuntimeWarning, message='coroutine .* was never awaited')
+
 ST = TransferState.State
 UP, DOWN = TransferDirection.UPLOAD, TransferDirection.DOWNLOAD
 UP_STATES = [ST.VIRGIN, ST.QUEUED, ST.INITIALIZING, ST.UPLOADING, ST.COMPLETE, ST.FAILED, ST.ABORTED, ST.PAUSED]
@@ -441,6 +445,30 @@ def set_friends(w, flags):
         w.settings.users.__dict__['friends'] = SymMembers(dict(flags))
 
 
+def finished_task(loop):
+    """a task that has finished but whose done-callbacks have not run yet"""
+    async def nothing():
+        return None
+    t = loop.spawn(nothing(), name='finished-negotiation')
+    loop.run_ready()
+    if not t.done():
+        raise symex.HarnessError('finished_task: not finished')
+    return t
+
+
+def hold_lock(loop, transfer):
+    """acquire the transfer's state lock the way a suspended abort()/pause() holds it"""
+    co = transfer._state_lock.acquire()
+
+    def run():
+        try:
+            co.send(None)
+        except StopIteration:
+            return
+        raise symex.HarnessError('state lock was not free')
+    loop.call(run)
+
+
 def pending_task(loop):
     """an unfinished task (stands for a negotiation that is still in flight)"""
     async def in_flight():
@@ -461,7 +489,8 @@ def rank_class(status, friend, privileged):
 STATUSES = [UserStatus.UNKNOWN, UserStatus.OFFLINE, UserStatus.ONLINE, UserStatus.AWAY]
 
 
-def step_harness(c, dirs, users, prop, slots_hi=4, inflight=True, sym_users=True, statuses=4):
+def step_harness(c, dirs, users, prop, slots_hi=4, inflight=True, sym_users=True, statuses=4, vary_downloads=True,
+                 stale_handles=False, locks=False):
     """`dirs`: string over U/D (direction of each transfer, list order = order in the manager);
     `users`: owner index of each transfer.  Everything else of the pre-state is symbolic:
     upload_slots, per user status / friend / privileged (sym_users), per transfer the state, and for
@@ -487,14 +516,14 @@ def step_harness(c, dirs, users, prop, slots_hi=4, inflight=True, sym_users=True
             add_user(w, f'user{j}', status[j], priv[j])
         set_friends(w, {f'user{j}': friend[j] for j in range(nu)})
 
-        T, state, rq, infl = [], [], [], []
+        T, state, rq, infl, stale, locked = [], [], [], [], [], []
         for i in range(n):
             up = dirs[i] == 'U'
             t = Transfer(f'user{users[i]}', f'file{i}', UP if up else DOWN)
             st = sym_enum(c, ST, f'state_t{i}', UP_STATES if up else DOWN_STATES)
             t.state = SymState(t, st) if c.symbolic else TransferState.init_from_state(st, t)
             startable = is_member(st, ST.QUEUED) if up else is_member(st, ST.QUEUED, ST.INCOMPLETE, ST.FAILED)
-            if up:
+            if up or not vary_downloads:
                 rq.append(False)
             else:
                 # remotely_queued / a retry-blocking fail reason are only varied where they can matter
@@ -506,17 +535,32 @@ def step_harness(c, dirs, users, prop, slots_hi=4, inflight=True, sym_users=True
                 c.assume(Implies(has_reason, is_member(st, ST.FAILED)))
                 if has_reason:
                     t.fail_reason = 'Cancelled'
+            # task slot: empty / occupied by an unfinished task / still holding a task that has
+            # finished (its done-callback has not run yet); only varied for startable states
             f = c.fresh_bool(f'in_flight_t{i}') if inflight else False
+            g = c.fresh_bool(f'finished_task_in_slot_t{i}') if stale_handles else False
             if inflight:
                 c.assume(Implies(f, startable))
-            task = None
+            if stale_handles:
+                c.assume(Implies(g, And(startable, Not(f))))
+            task = done = None
             if f:
                 task = pending_task(loop)
-                if up:
-                    t._transfer_task = task
-                else:
-                    t._remotely_queue_task = task
+            elif g:
+                done = finished_task(loop)
+            if up:
+                t._transfer_task = task or done
+            else:
+                t._remotely_queue_task = task or done
             infl.append(task)
+            stale.append(done)
+            # a state transition of this transfer is in progress (its state lock is held)
+            lk = c.fresh_bool(f'transition_in_progress_t{i}') if locks else False
+            if locks:
+                c.assume(Implies(lk, startable))
+            if lk:
+                hold_lock(loop, t)
+            locked.append(bool(lk))
             t.state_listeners.append(w.manager)
             w.manager._transfers.append(t)
             T.append(t)
@@ -538,7 +582,7 @@ def step_harness(c, dirs, users, prop, slots_hi=4, inflight=True, sym_users=True
         if prop == 'C05':
             _c05_step_obligations(c, dirs, users, S, status, friend, priv, T, state, infl, started)
         else:
-            _c06_step_obligations(c, dirs, T, state, rq, infl, started)
+            _c06_step_obligations(c, dirs, T, state, rq, infl, started, locked)
         c.check(not loop.errors, 'no_loop_errors', sig=[prop], info=repr(loop.errors[:1]))
         loop.cleanup()
 
@@ -599,12 +643,16 @@ def _c05_step_obligations(c, dirs, users, S, status, friend, priv, T, state, inf
         c.reach('c05_step_started_some')
 
 
-def _c06_step_obligations(c, dirs, T, state, rq, infl, started):
+def _c06_step_obligations(c, dirs, T, state, rq, infl, started, locked):
     n = len(dirs)
     for i in range(n):
         t = T[i]
         kind = 'upload' if dirs[i] == 'U' else 'download'
         slot = t._transfer_task if dirs[i] == 'U' else t._remotely_queue_task
+        if locked[i]:
+            c.reach('c06_step_transition_in_progress')
+            # abort / pause is waiting for the old task to end: nothing new may be started meanwhile
+            c.check(not started[i], 'none_started_during_transition', sig=[kind], info={'transfer': i})
         if infl[i] is not None:
             c.reach('c06_step_occupied_slot')
             # a negotiation is in flight for this transfer: no second one, handle untouched
@@ -617,3 +665,62 @@ def _c06_step_obligations(c, dirs, T, state, rq, infl, started):
                 # cancelling the transfer must reach the task that was just created
                 c.check(slot is started[i][0]['task'], 'handle_tracks_new_task', sig=[kind])
                 c.check(started[i][0]['task'] in t.get_tasks(), 'handle_tracks_new_task', sig=[kind])
+
+
+# ----------------------------------------------------------------------------------------------
+# stub validation (prelude of C05 / C06): the stand-ins agree with the real thing on concrete inputs
+# ----------------------------------------------------------------------------------------------
+
+def validate_fakes():
+    notes = []
+    # SymList == list for concrete indices / slices
+    for n in range(0, 5):
+        base = list(range(n))
+        sl = SymList(base)
+        for k in range(-6, 7):
+            if sl[:k] != base[:k] or sl[k:] != base[k:]:
+                raise symex.HarnessError(f'SymList slice differs from list for n={n} k={k}')
+        if list(reversed(sl)) != list(reversed(base)) or sl != base:
+            raise symex.HarnessError('SymList differs from list')
+    notes.append('SymList agrees with list on all slices of lists of length 0..4 with bounds -6..6')
+    # pinned ranking agrees with "privileged > friend > online/away > unknown" on all 16 concrete users
+    order = []
+    for p in (False, True):
+        for f in (False, True):
+            for s in (UserStatus.UNKNOWN, UserStatus.ONLINE, UserStatus.AWAY, UserStatus.OFFLINE):
+                order.append((p, f, s, rank_class(s, f, p)))
+    for p, f, s, r in order:
+        want = 3 if p else 2 if f else 1 if s in (UserStatus.ONLINE, UserStatus.AWAY) else 0
+        import z3
+        got = r if isinstance(r, int) else z3.simplify(r.e).as_long()
+        if got != want:
+            raise symex.HarnessError('rank_class table broken')
+    notes.append('reference ranking table checked on the 16 concrete (privileged, friend, status) combinations')
+    # the fake network behaves like Network.send_peer_messages in the two respects the claim relies on:
+    # it suspends at least once and a cancellation propagates (nothing is delivered)
+    loop = TLoop()
+    net = FakeNetwork(loop, lambda what, u, p: ('ok', 0))
+
+    async def sender():
+        await net.send_peer_messages('u', 'm')
+    t = loop.spawn(sender())
+    loop.step()
+    if t.done() or net.sent:
+        raise symex.HarnessError('FakeNetwork.send_peer_messages did not suspend')
+    t.cancel()
+    loop.run_ready()
+    if not t.cancelled() or net.sent or net.attempts[0]['status'] != 'cancelled':
+        raise symex.HarnessError('FakeNetwork.send_peer_messages: cancellation did not propagate')
+    t2 = loop.spawn(sender())
+    loop.run_ready()
+    if not t2.done() or len(net.sent) != 1:
+        raise symex.HarnessError('FakeNetwork.send_peer_messages did not deliver')
+    loop.cleanup()
+    notes.append('FakeNetwork.send_peer_messages suspends once, delivers, and propagates cancellation')
+    # the real TransferState classes still expose what SymState stands for
+    t = Transfer('u', 'f', UP)
+    for st in UP_STATES + DOWN_STATES:
+        if TransferState.init_from_state(st, t).VALUE is not st:
+            raise symex.HarnessError('TransferState.init_from_state / VALUE changed')
+    notes.append('TransferState.init_from_state(s).VALUE is s for every state used')
+    return notes
